@@ -16,6 +16,7 @@ Model: Acme.Core.Arith.  float64 rounding is outside the model (values over ℚ)
 import Acme.Core.Arith
 import Acme.Spec.Arith
 import Acme.Proofs.Arith
+import Acme.Proofs.SitesConsts
 
 namespace Acme.Props.C03
 open Acme.Arith
@@ -92,6 +93,14 @@ theorem C03_enumSize (minSize maxIndex : Int) (h0 : 0 ≤ maxIndex) :
 theorem C03_muxSel (groupCount : Int) (h : 1 ≤ groupCount) :
     IsBitLen (groupCount - 1) (muxSelWidth groupCount) :=
   Acme.Arith.muxSel_spec groupCount h
+
+/-- Tie B: the numeric constants in the current source (regenerated on every run) are the
+    ones of the model. -/
+theorem C03_consts :
+    Acme.Gen.maxSize = Acme.Arith.maxSize ∧ Acme.Gen.headerBits = Acme.BusLoad.headerBits ∧
+    Acme.Gen.trailerBits = Acme.BusLoad.trailerBits ∧
+    Acme.Gen.headerStuffingBits = Acme.BusLoad.headerStuffingBits :=
+  Acme.Sites.consts_expected
 
 /-! Non-vacuity -/
 example : (signExtend 0x9#64 4).toInt = -7 := by decide
